@@ -987,3 +987,7 @@ def run(ctx):
     # give-up path) before anything is read from it; a thread whose stop was not awaited is dropped from the list (same rule instance as C03/attach-detach)
     from rules import c03 as _c03w
     _c03w.rule_blocking_wait(ctx, R="C04/stop-awaited")
+    # `the recorded ... stack memory describe the state the thread had`: the stack descriptor's start is the address the bytes were copied
+    # from (also for the shortened window of the extra threads), so the listed rsp lies inside the range it names (same rule instance as C06/descriptor-agrees)
+    from rules import c06 as _c06d
+    _c06d.rule_descriptor_agrees(ctx, R="C04/stack-descriptor-agrees")
